@@ -401,7 +401,7 @@ func c05CLIStride(w *fw.Worker, rule string) int {
 	if w.Quick() {
 		return 400
 	}
-	return 40
+	return 150 // three binary runs per sampled mutant (plain, --svg-out -, --svg-out FILE)
 }
 
 // checkC05 judges one invalid program.
